@@ -104,7 +104,26 @@ def sh(cmd, cwd=None, timeout=1200, env=None, input=None):
         return 124, (ex.stdout or b'').decode(errors='replace') if isinstance(ex.stdout, bytes) else (ex.stdout or ''), 'TIMEOUT', time.time() - t0
 
 
+PROJ_HEAD = '-Q . PV\n-arg -w -arg -notation-overridden,-ambiguous-paths,-deprecated-hint-without-locality\n'
+
+
+def write_coqproject():
+    """_CoqProject is derived from the files on disk (every .v under Base Gen Model Spec Proofs Props)"""
+    files = []
+    for sub in ('Base', 'Gen', 'Model', 'Spec', 'Proofs', 'Props'):
+        d = os.path.join(COQ, sub)
+        if os.path.isdir(d):
+            files += sorted(os.path.join(sub, f) for f in os.listdir(d) if f.endswith('.v'))
+    text = PROJ_HEAD + '\n'.join(files) + '\n'
+    proj = os.path.join(COQ, '_CoqProject')
+    old = open(proj).read() if os.path.exists(proj) else None
+    if old != text:
+        with open(proj, 'w') as fh:
+            fh.write(text)
+
+
 def ensure_makefile():
+    write_coqproject()
     mk = os.path.join(COQ, 'Makefile')
     proj = os.path.join(COQ, '_CoqProject')
     if not os.path.exists(mk) or os.path.getmtime(mk) < os.path.getmtime(proj):
@@ -376,7 +395,37 @@ class Check:
         if line not in self.known_lines:
             self.known_lines.append(line)
 
-    def violation(self, what, case, stream='', extra=None):
+    def replay_known_findings(self, still_fails):
+        """still_fails(finding) -> truthy when the finding's witness still violates the property on the
+        current implementation.  Open findings that reproduce are printed as KNOWN-FINDING; fixed entries
+        are replayed too (a defect that returned is reported by the ordinary streams, nothing is suppressed)."""
+        for f in self.findings:
+            try:
+                r = still_fails(f)
+            except Exception as ex:   # a witness that cannot be replayed is a harness defect: make it visible
+                self.oblige(f'finding-replay:{f["id"]}', 'correspondence', False, repr(ex))
+                continue
+            if f['status'] == 'open':
+                if r:
+                    self.known(f['id'], f['what'])
+                else:
+                    self.notes.append(f'open finding {f["id"]} no longer reproduces on this tree')
+            elif r:
+                self.violation(f'fixed finding {f["id"]} has returned: {f["what"]}', f.get('witness'), stream='known-findings')
+
+    def scale(self):
+        """search intensification factor: 1 normally, larger when a proof/translation obligation is broken"""
+        return 6 if any(o['kind'] in ('proof', 'translation') for o in self.broken()) else 1
+
+    def violation(self, what, case, stream='', extra=None, matcher=None):
+        """record a failing input.  matcher(finding, case) -> bool decides whether an *open* known finding
+        covers this (shrunk) case; covered cases are counted, not reported."""
+        if matcher is not None:
+            for f in self.findings:
+                if f['status'] == 'open' and matcher(f, case):
+                    self.known(f['id'], f['what'])
+                    self.coverage['suppressed_by_known_findings'] = self.coverage.get('suppressed_by_known_findings', 0) + 1
+                    return
         payload = {'property': self.pid, 'kind': 'failing-input', 'stream': stream, 'what': what, 'case': case,
                    'seed': self.seed, 'tier': self.tier}
         if extra:
